@@ -278,6 +278,8 @@ func gen(t *rapid.T) Case {
 	// >=9 entries under packages: (maps spread over buckets, sort.Slice beyond its insertion-sort range of
 	// short slices) with three or more recursive packages
 	wantBig := chance(t, "want-big", 2)
+	// a recursive package unrelated to the nested pair (it can sit between them in any processing order)
+	wantThird := wantNested && chance(t, "want-third-recursive", 6)
 	row20Known := vh.Known(keyRow20) // repaired in /repo 732d8a4; the switch stays for the findings protocol
 
 	// ---- sources
@@ -292,6 +294,9 @@ func gen(t *rapid.T) Case {
 	}
 	if wantExplicitUnder || wantRow20 {
 		present["alpha"], present["alpha/beta"] = true, true
+	}
+	if wantThird {
+		present["zeta"], present["zeta/eta"] = true, true
 	}
 	n := 0
 	for _, u := range universe {
@@ -363,7 +368,8 @@ func gen(t *rapid.T) Case {
 	}
 	for _, s := range c.Src {
 		forced := (wantNested && (s.Dir == "alpha" || s.Dir == "alpha/beta")) ||
-			((wantExplicitUnder || wantRow20) && (s.Dir == "alpha" || s.Dir == "alpha/beta"))
+			((wantExplicitUnder || wantRow20) && (s.Dir == "alpha" || s.Dir == "alpha/beta")) ||
+			(wantThird && s.Dir == "zeta")
 		skip := wantNested && s.Dir == "alpha/beta/gamma" && chance(t, "gamma-discovered", 8)
 		pConf, pRec := 6, 5
 		if wantBig {
@@ -378,6 +384,8 @@ func gen(t *rapid.T) Case {
 		case wantNested && (s.Dir == "alpha" || s.Dir == "alpha/beta"):
 			lv.Recursive = "true"
 		case wantExplicitUnder && s.Dir == "alpha":
+			lv.Recursive = "true"
+		case wantThird && s.Dir == "zeta":
 			lv.Recursive = "true"
 		case hasBelow(s.Dir) && chance(t, "recursive", pRec):
 			lv.Recursive = "true"
@@ -493,6 +501,14 @@ func gen(t *rapid.T) Case {
 				}
 			}
 			pc.Ifaces = append(pc.Ifaces, ic)
+		}
+	}
+	// document order of the entries under packages: — small Go maps are only ever ranged in rotations
+	// of their insertion order, so the order in the file decides which relative orders can occur at all
+	if chance(t, "shuffle-packages", 6) {
+		for i := len(c.Pkgs) - 1; i > 0; i-- {
+			j := i - rapid.IntRange(0, i).Draw(t, "shuffle") // 0 = stay
+			c.Pkgs[i], c.Pkgs[j] = c.Pkgs[j], c.Pkgs[i]
 		}
 	}
 	return c
@@ -948,6 +964,17 @@ func analyse(c Case) shape {
 	flag(s.structPiped, "hazard=structname-piped-into-path")
 	flag(len(c.Pkgs) >= 9, "package-entries>=9")
 	flag(len(rec) >= 3, "recursive-packages>=3")
+	nestedPlusUnrelated := false
+	for a := range rec {
+		for b := range rec {
+			for x := range rec {
+				if isUnder(b, a) && !isUnder(x, a) && !isUnder(a, x) && !isUnder(b, x) && x != a && x != b {
+					nestedPlusUnrelated = true
+				}
+			}
+		}
+	}
+	flag(nestedPlusUnrelated && s.discovered, "hazard=nested-recursive+unrelated-recursive")
 	flag(s.nullEntry, "null-package-entry")
 	flag(c.Root.Recursive == "true", "root-recursive")
 	tdLevels := 0
